@@ -429,6 +429,111 @@ func TestCheckLaws(t *testing.T) {
 	})
 }
 
+// ---- equality and copies of values that have a history -------------------------------------
+
+type histCase struct {
+	Left  *gen.NodeBP  `json:"left"`
+	Right *gen.NodeBP  `json:"right"`
+	Warm  int          `json:"warm"`
+	Edits []gen.EditOp `json:"edits"`
+}
+
+type histView struct {
+	lr, rl, nodes, selfCopy bool
+	copyText                string
+}
+
+func viewOf(l, r gedcom.Node) histView {
+	cp := gedcom.DeepCopy(l, gedcom.NewDocument())
+	return histView{lr: gedcom.DeepEqual(l, r), rl: gedcom.DeepEqual(r, l), nodes: gedcom.DeepEqualNodes(l.Nodes(), r.Nodes()),
+		selfCopy: gedcom.DeepEqual(l, cp), copyText: tu.Text(cp)}
+}
+
+// checkHistory: equality and copying are functions of the content of the trees, not of what
+// was done with them before (compared, copied, then edited through the public API).
+func checkHistory(c histCase) (fl *harness.Failure, edited int) {
+	defer func() {
+		if p := recover(); p != nil {
+			fl = harness.Failf("panic", "panic: %v", p)
+		}
+	}()
+	_, l, _ := gen.BuildTree(c.Left)
+	_, r, _ := gen.BuildTree(c.Right)
+	warm := func() {
+		_ = viewOf(l, r)
+		for _, a := range tu.All(l) {
+			for _, b := range tu.All(r) {
+				_ = a.Equals(b)
+			}
+		}
+	}
+	for i := 0; i < c.Warm; i++ {
+		warm()
+	}
+	for _, e := range c.Edits {
+		if e.Apply(l, r) {
+			edited++
+			warm()
+		}
+	}
+	// live first: building anything resets process-wide caches
+	lbp, rbp := gen.FromNode(l), gen.FromNode(r)
+	lt, rtx := tu.Text(l), tu.Text(r)
+	live := viewOf(l, r)
+	_, l2, _ := gen.BuildTree(lbp)
+	_, r2, _ := gen.BuildTree(rbp)
+	if lt != tu.Text(l2) || rtx != tu.Text(r2) {
+		return nil, 0
+	}
+	fresh := viewOf(l2, r2)
+	if live.copyText != lt {
+		return harness.Failf("history:copy-text-differs", "a deep copy of a tree that was compared and edited before serialises differently from the tree\ntree:\n%scopy:\n%s", lt, live.copyText), edited
+	}
+	if live != fresh {
+		return harness.Failf("history-changes-equality", "DeepEqual(l,r)/DeepEqual(r,l)/DeepEqualNodes/DeepEqual(l,copy) are %v %v %v %v for trees that were compared and edited before, and %v %v %v %v for the same trees built from nothing\nleft:\n%sright:\n%s",
+			live.lr, live.rl, live.nodes, live.selfCopy, fresh.lr, fresh.rl, fresh.nodes, fresh.selfCopy, lt, rtx), edited
+	}
+	return nil, edited
+}
+
+func TestCheckEqualityHistory(t *testing.T) {
+	s := harness.NewSub("equality-after-history",
+		"pairs of trees (a tree and its permuted copy, or independent trees with the same root tag) that are first compared and copied (DeepEqual both ways, DeepEqualNodes, DeepCopy, Equals of every node with every node; 1..2 rounds), then edited through the public API (1..4 edits as in C08/C09), comparing again after every edit; oracle: the four verdicts and the text of a deep copy of the live trees are exactly what the same trees built from nothing give; non-trivial = at least one edit changed a tree and the trees have >= 6 nodes together")
+	s.Rapid(t, harness.Share(harness.Pick(20000, 2000000)), 71, func(rt *rapid.T) {
+		l := gen.EqTree(gen.EqTreeOpts{MaxNodes: 14}).Draw(rt, "left")
+		var r *gen.NodeBP
+		if rapid.Bool().Draw(rt, "copy") {
+			r = l.Clone()
+			if len(r.Kids) > 1 {
+				r.Kids = rapid.Permutation(r.Kids).Draw(rt, "perm")
+			}
+		} else {
+			r = gen.EqTree(gen.EqTreeOpts{MaxNodes: 14, Roots: []string{l.Tag}}).Draw(rt, "right")
+		}
+		c := histCase{Left: l, Right: r, Warm: rapid.IntRange(1, 2).Draw(rt, "warm"), Edits: gen.EditOps(4).Draw(rt, "edits")}
+		fl, edited := checkHistory(c)
+		nt := edited > 0 && l.Count()+r.Count() >= 6
+		s.Eval(harness.JSON(c), nt, fmt.Sprintf("effective-edits:%d", edited))
+		if nt {
+			s.MaybeSample(c)
+		}
+		if fl != nil && s.Report(c, fl) {
+			rt.Fatalf("%s: %s", fl.Sig, fl.Msg)
+		}
+	})
+}
+
+func init() {
+	harness.RegisterReplay("equality-after-history", func(raw json.RawMessage) *harness.Failure {
+		var c histCase
+		if err := json.Unmarshal(raw, &c); err != nil {
+			return harness.Failf("bad-replay", "%v", err)
+		}
+		fl, _ := checkHistory(c)
+		return fl
+	})
+}
+
 func init() {
 	harness.Assume("deep copies are made into a fresh document (DeepCopy adds copied individuals/families to the target document by design)",
 		"edits are inserted/changed plain nodes with a value that occurs nowhere else, or the removal of any node; 'never deep-equal' then follows from the statement",
